@@ -512,7 +512,7 @@ func meCaseCount(e vEnv) int64 {
 	if e.Tier == "thorough" {
 		return 3000000
 	}
-	return 60000
+	return 200000
 }
 
 func TestVerifME(t *testing.T) {
